@@ -40,6 +40,12 @@ def run(ctx):
     rollback(ctx, f, lm, cfg)
     siblings(ctx, f, cfg)
     feeding(ctx, f, cfg)
+    # the counts the breakers sum are those of the statistic window: the ring is read only through the filtered readers
+    from . import rules_C02
+    rules_C02.array_readers(ctx, f, cfg, R="C03.window/who-reads-array")
+    # each strategy is guarded by its own breaker type, on the fresh and on the statistics-reusing branch of its generator
+    from . import gentable
+    gentable.check(ctx, f, "circuitbreaker", cfg, "C03.generators")
 
 
 def transitions(ctx, f, lm, cfg, P):
@@ -235,7 +241,27 @@ def try_pass(ctx, f, cfg, P):
             ctx.violation(P + ".try_pass", P + ".try_pass|stamp", "the retry timestamp is not now(ms) + retry_timeout_ms", b.loc(), config=cfg)
 
 
+def hook_runs_for_blocked(ctx, f, cfg, P="C03"):
+    """The rollback hook lives in the probing entry's exit handlers: a blocked entry must be exited through SentinelEntry::exit (which
+    runs the handlers), not through the chain's exit alone (that returns early for blocked contexts)."""
+    build = f.one("EntryBuilder::build")
+    ex = f.one("SentinelEntry::exit")
+    if not ctx.floor(P + ".rollback", "EntryBuilder::build + SentinelEntry::exit", (1 if build else 0) + (1 if ex else 0), 2):
+        return
+    # SentinelEntry::exit invokes the stored handlers
+    sl = Slicer(f, ex)
+    invokes = any(("indirect" in str(t["callee"]) or callee_def(t).rsplit("::", 1)[-1] in ("call", "call_once", "call_mut")) and any_atom(set().union(*[sl.of_operand(a) for a in t["args"]] or [set()]), "field:SentinelEntry.exit_handlers")
+                  for _, t in ex.calls())
+    from . import rules_C13
+    before = len(ctx.viol)
+    rules_C13.build_rules(ctx, f, build, cfg)
+    ctx.instance(P + ".rollback/runs", build.path, {"SentinelEntry::exit_invokes_exit_handlers": invokes}, "blocked entries are exited through SentinelEntry::exit, which runs the exit handlers", invokes, cfg)
+    if not invokes:
+        ctx.violation(P + ".rollback", P + ".rollback|handlers-not-run", "SentinelEntry::exit does not invoke the entry's exit handlers: the rollback hook of a blocked probe never runs", ex.loc(), config=cfg)
+
+
 def rollback(ctx, f, lm, cfg):
+    hook_runs_for_blocked(ctx, f, cfg, "C03")
     b = f.one("BreakerBase::from_open_to_half_open")
     if not ctx.floor("C03.rollback", "BreakerBase::from_open_to_half_open", 1 if b else 0, 1):
         return
